@@ -32,7 +32,7 @@ fn mirror_move(p: i64) -> i64 {
 }
 
 fn verdict(g: &Game, packed: i64) -> &'static str {
-    let r = std::panic::catch_unwind(|| {
+    let r = crate::unwind_safe(|| {
         let m = proj::find_move(g, packed).expect("capture not in move list");
         see(g, m, Eval(0))
     });
